@@ -1,4 +1,6 @@
 import Orca.Lemmas.Roundtrip
+import Orca.Lemmas.Sections
+import Orca.Gen.Sections
 /-!
 # C01 — unmodified parse-then-encode yields a valid module
 
@@ -32,5 +34,44 @@ theorem c01_valid_preserved {Bytes Content : Type} (decode : Bytes → Content) 
     would get) -/
 theorem c01_wire_routes_agree : ∀ d : DT, (match d with | .RecGroup _ | .CoreTypeId _ => True | _ => toParser d = toEnc d) :=
   toParser_agrees
+
+/-! ### the section plan (M15) -/
+open Orca.Sections in
+/-- **the encoder's section writes this model was written against**: every `module.section(&x)` call of `Module::encode_internal`, in
+    source order, with the top-level statement that guards it (regenerated from the source on every run). A section that appears,
+    disappears, moves, or gets another guard makes this fail until `Orca.Sections.plan` has been reviewed. -/
+theorem c01_section_writes_reviewed :
+    Orca.Gen.encoderSections =
+      [("type_sect", "if !self.types.groups.is_empty()"), ("imports", "if !self.imports.is_empty()"),
+       ("functions", "if !self.functions.is_empty()"), ("tables", "if !self.tables.is_empty()"),
+       ("memories", "if !self.memories.is_empty()"), ("tags", "if !self.tags.is_empty()"),
+       ("globals", "if !self.globals.is_empty()"), ("exports", "if !self.exports.is_empty()"),
+       ("wasm_encoder::StartSection", "if let Some(function_index) = self.start"), ("elements", "if !self.elements.is_empty()"),
+       ("data_count", "if self.data_count_section_exists"), ("code", "if !self.num_local_functions > 0"),
+       ("data", "if !self.data.is_empty()"), ("names", "always"),
+       ("wasm_encoder::CustomSection", "for section in self.custom_sections.iter()")] := by decide
+
+open Orca.Sections in
+/-- **section order.** For every module, whatever it contains: the non-custom sections the encoder writes are in the order the binary
+    format prescribes (type, import, function, table, memory, tag, global, export, start, element, data count, code, data), each
+    at most once — a precondition of validity that is wirm's own doing. -/
+theorem c01_sections_in_format_order (s : Shape) : (core s).Pairwise (fun x y => rank x < rank y) := core_sorted s
+
+open Orca.Sections in
+/-- **data count.** A module that was parsed with a data-count section is encoded with one, in front of the code section
+    (`memory.init` / `data.drop` in a body are only valid with it), whether or not it has data segments or passive ones. -/
+theorem c01_datacount_kept (s : Shape) (h : s.dataCount = true) : 12 ∈ plan s ∧ 12 ∈ core s ∧ 10 ∈ core s := by
+  refine ⟨?_, ?_, ?_⟩
+  · simp [plan, h]
+  · rw [core_eq]; simp [h]
+  · rw [core_eq]; simp
+
+open Orca.Sections in
+/-- a module with functions gets a function section and a code section; the code section is written in any case -/
+theorem c01_function_and_code_sections (s : Shape) : 10 ∈ plan s ∧ (s.funcs > 0 → 3 ∈ plan s) := by
+  refine ⟨by simp [plan], fun h => by simp [plan, h]⟩
+
+/-- non-vacuity: only a data-count section and data -/
+example : Orca.Sections.plan ⟨0, 0, 0, 0, 1, 0, 0, 0, false, 0, true, 2, 1⟩ = [5, 12, 10, 11, 0, 0] := by decide
 
 end Orca.C01
